@@ -30,6 +30,10 @@ def run_b(rep, cells, props, explore=False, tier="quick", cap=None):
             keep, rest = [], []
             for tag, g in groups.items():
                 (keep if len(g) <= 30 and len(keep) + len(g) <= cap // 3 else rest).extend(g)
+            # cells marked `always` (small families whose detection power must not depend on the stride) are kept, up to half of the cap
+            always = [c for c in rest if c.get("always")][:cap // 2]
+            rest = [c for c in rest if not c.get("always") or c not in always]
+            keep = keep + always
             room = cap - len(keep)
             if len(rest) > room:
                 step = len(rest) / room
